@@ -71,3 +71,7 @@ claim("C19", "bounded-exhaustive enumeration of input archives x sub-commands x 
   "Every input archive up to the bound x 22 command/flag combinations (+ get-dag from every start node of a UnixFS DAG) is run through the built car binary; each produced archive must pass car inspect --full and car verify and equal the reference answer (selected blocks in source order, unchanged payload + regenerated index, exact block bytes, scan order, concatenation).",
   "Two call-site specific known findings (inspect --full on CARv1, concat --version 2) are recorded in KNOWN_FINDINGS.txt; filter goes through the blockstore so its de-dup/identity rules apply.",
   "DESIGN.md 5/C19")
+claim("C15", "bounded-exhaustive enumeration of DAG shapes x selectors x writer kinds x traversal options on the real traversal writers; independent load log as oracle",
+  "Every dag-cbor DAG up to the node bound (all upper-triangular adjacencies with link multiplicity 0/1/2, raw leaves) x 4 selectors x 6 writers x link-visit-once/budget/padding/index options is written; the output must be exactly the first-visit order of the loads logged during the writing pass, announced sizes and returned counts must equal bytes written, Dump must equal Write and callbacks must report true offsets.",
+  "Hand-written dag-cbor encoder; errors outside the default traversal configuration are refusals that assert nothing.",
+  "DESIGN.md 5/C15")
